@@ -2814,11 +2814,49 @@ def r9_title_text_sanitised(corpus: Corpus, rep: Report, tier: str):
     f = _inlined(corpus, base.func("clean_astext"))
     rep.saw_function(f.fq)
     cfg = get_cfg(f)
+    def predicate_classes(body: ast.expr, prm: str, mod_f: FunctionInfo) -> set[str] | None:
+        """classes accepted by `isinstance(p, A | B)` / `isinstance(p, A) or isinstance(p, B)`; None if the predicate is anything else"""
+        if isinstance(body, ast.BoolOp) and isinstance(body.op, ast.Or):
+            out: set[str] = set()
+            for v in body.values:
+                c = predicate_classes(v, prm, mod_f)
+                if c is None:
+                    return None
+                out |= c
+            return out
+        if isinstance(body, ast.Call) and dotted(body.func) == "isinstance" and len(body.args) == 2 and isinstance(body.args[0], ast.Name) and body.args[0].id == prm:
+            return _node_classes(mod_f, body.args[1])
+        return None
+
+    def step_classes(it: ast.expr) -> tuple[set[str], bool]:
+        """(node classes a findall/traverse condition selects, whether some condition was not understood)"""
+        cls = {c for x in ast.walk(it) for c in (_node_classes(f, x) or set()) if isinstance(x, (ast.Attribute, ast.Name))}
+        odd = False
+        for x in ast.walk(it):
+            got = "n/a"
+            if isinstance(x, ast.Lambda) and len(x.args.args) == 1:
+                got = predicate_classes(x.body, x.args.args[0].arg, f)
+            elif isinstance(x, ast.Name) and x.id in f.module.functions and not isinstance(getattr(x, "_parent", None), ast.Call) or (
+                isinstance(x, ast.Name) and x.id in f.module.functions and isinstance(getattr(x, "_parent", None), ast.Call) and x._parent.func is not x
+            ):
+                h = f.module.functions[x.id]
+                rets_ = [r for r in h.local_nodes() if isinstance(r, ast.Return)]
+                got = predicate_classes(rets_[0].value, h.params[0], h) if len(rets_) == 1 and rets_[0].value is not None and len(h.params) == 1 else None
+            if got == "n/a":
+                continue
+            if got is None:
+                odd = True
+            else:
+                cls |= got
+        return cls, odd
+
     steps = []
     for n in f.local_nodes():
-        if isinstance(n, ast.For):
-            cls = {c for x in ast.walk(n.iter) for c in (_node_classes(f, x) or set()) if isinstance(x, (ast.Attribute, ast.Name))}
-            if cls and any(isinstance(c, ast.Call) and (dotted(c.func) or "").rsplit(".", 1)[-1] in ("findall", "traverse") for c in ast.walk(n.iter)):
+        if isinstance(n, ast.For) and any(isinstance(c, ast.Call) and (dotted(c.func) or "").rsplit(".", 1)[-1] in ("findall", "traverse") for c in ast.walk(n.iter)):
+            cls, odd = step_classes(n.iter)
+            if odd:
+                rep.error(R9, f"{f.module.site(n)}: the condition of `{short(n.iter, 60)}` is not a plain isinstance predicate")
+            if cls:
                 steps.append((n, cls))
     rets = [r for r in f.local_nodes() if isinstance(r, ast.Return)]
     if not steps or not rets:
